@@ -220,7 +220,7 @@ func (m Mode) url(dir string) string {
 }
 
 // populate runs the DDL and the inserts; inserts refused by the engine are skipped.
-func populate(ctx context.Context, db *sql.DB, ddl, inserts []string) (skipped int, err error) {
+func populate(ctx context.Context, db *sql.DB, ddl, inserts, extra []string) (skipped int, err error) {
 	conn, err := db.Conn(ctx)
 	if err != nil {
 		return 0, err
@@ -243,6 +243,12 @@ func populate(ctx context.Context, db *sql.DB, ddl, inserts []string) (skipped i
 	for _, s := range inserts {
 		if _, err := conn.ExecContext(ctx, s); err != nil {
 			skipped++
+		}
+	}
+	// views / triggers last: the rows above are inserted without them
+	for _, s := range extra {
+		if _, err := conn.ExecContext(ctx, s); err != nil {
+			return skipped, fmt.Errorf("extra %q: %w", s, err)
 		}
 	}
 	return skipped, nil
